@@ -29,10 +29,14 @@ type Foreign struct {
 	// 1 = rIdN with gaps and not in file order (rId7, rId10, rId13, ... assigned from the last relationship to the first),
 	// 2 = ids that do not follow the rIdN pattern at all (R1f, R2e, ...). References in the main part follow.
 	RelIDs int `json:"rel_ids,omitempty"`
+	// JpgCT: JPEG declared the way Word and most producers do it: <Default Extension="jpg" ContentType="image/jpeg"/>
+	// (present whether or not the document shows a JPEG picture yet - producers write a fixed set of Defaults), JPEG media
+	// parts named *.jpg, no Default for the extension "jpeg".
+	JpgCT bool `json:"jpg_ct,omitempty"`
 }
 
 func (f *Foreign) any() bool {
-	return f != nil && (f.AbsHF || f.AbsAll || f.AbsPkg || f.Media1 || f.RelIDs != 0)
+	return f != nil && (f.AbsHF || f.AbsAll || f.AbsPkg || f.Media1 || f.RelIDs != 0 || f.JpgCT)
 }
 
 var rAttrRe = regexp.MustCompile(`\br:[A-Za-z]+="[^"]*"`)
@@ -66,11 +70,20 @@ func foreignize(b []byte, f *Foreign) []byte {
 		entries = append(entries, entry{zf.Name, data})
 	}
 	rename := map[string]string{}
-	if f.Media1 {
+	if f.Media1 || f.JpgCT {
 		for _, e := range entries {
 			if m := mediaNameRe.FindStringSubmatch(e.name); m != nil {
 				n, _ := strconv.Atoi(m[1])
-				rename[e.name] = fmt.Sprintf("word/media/image%d%s", n+1, m[2])
+				ext := m[2]
+				if f.Media1 {
+					n++
+				}
+				if f.JpgCT && ext == ".jpeg" {
+					ext = ".jpg"
+				}
+				if nn := fmt.Sprintf("word/media/image%d%s", n, ext); nn != e.name {
+					rename[e.name] = nn
+				}
 			}
 		}
 	}
@@ -112,6 +125,9 @@ func foreignize(b []byte, f *Foreign) []byte {
 				}
 				return m
 			})
+		}
+		if e.name == "[Content_Types].xml" && f.JpgCT {
+			data = jpgContentTypes(data)
 		}
 		if opc.IsRelsPart(e.name) {
 			rels, err := opc.ParseRels(e.name, e.data)
@@ -175,6 +191,28 @@ func foreignize(b []byte, f *Foreign) []byte {
 		return b
 	}
 	return buf.Bytes()
+}
+
+var (
+	ctJpegDefaultRe = regexp.MustCompile(`<Default\s+Extension="jpeg"\s+ContentType="image/jpeg"\s*(/>|>\s*</Default>)`)
+	ctJpgDefaultRe  = regexp.MustCompile(`<Default\s+Extension="(?i:jpg)"`)
+	ctTypesOpenRe   = regexp.MustCompile(`<Types\b[^>]*>`)
+)
+
+// jpgContentTypes rewrites [Content_Types].xml: the Default for "jpeg" goes (the parts it covered are renamed to *.jpg),
+// a Default jpg = image/jpeg is declared.
+func jpgContentTypes(data []byte) []byte {
+	data = ctJpegDefaultRe.ReplaceAll(data, nil)
+	if ctJpgDefaultRe.Match(data) {
+		return data
+	}
+	loc := ctTypesOpenRe.FindIndex(data)
+	if loc == nil {
+		return data
+	}
+	out := append([]byte{}, data[:loc[1]]...)
+	out = append(out, `<Default Extension="jpg" ContentType="image/jpeg"/>`...)
+	return append(out, data[loc[1]:]...)
 }
 
 func escAttr(s string) string {
